@@ -906,4 +906,145 @@ theorem run_shutdown_bounded {cfg : Cfg} : ∀ (acts : List Action) (s s' : Stat
       simp only [List.length_cons]; omega
     · simp at h
 
+
+/-! ### order of a tid's buffers across exec -/
+
+def ofTid (t : Int) (l : List (Int × Nat)) : List (Int × Nat) := l.filter (fun e => e.1 = t)
+
+theorem ofTid_append (t : Int) (a b : List (Int × Nat)) : ofTid t (a ++ b) = ofTid t a ++ ofTid t b := by
+  simp [ofTid]
+
+theorem ofTid_erase_other {t u : Int} (h : u ≠ t) (b : Nat) (l : List (Int × Nat)) :
+    ofTid t (l.erase (u, b)) = ofTid t l := by
+  induction l with
+  | nil => rfl
+  | cons e l ih =>
+    rw [List.erase_cons]
+    by_cases he : e = (u, b)
+    · subst he; simp [ofTid, h]
+    · simp only [beq_iff_eq, he, if_false]
+      simp only [ofTid, List.filter_cons] at ih ⊢
+      rw [ih]
+
+theorem ofTid_erase_self (t : Int) (b : Nat) (l : List (Int × Nat)) :
+    ofTid t (l.erase (t, b)) = (ofTid t l).erase (t, b) := by
+  induction l with
+  | nil => rfl
+  | cons e l ih =>
+    rw [List.erase_cons]
+    by_cases he : e = (t, b)
+    · subst he; simp [ofTid]
+    · simp only [beq_iff_eq, he, if_false]
+      by_cases ht : e.1 = t
+      · simp only [ofTid, List.filter_cons, ht, decide_true, if_true] at ih ⊢
+        rw [List.erase_cons]; simp [he, ih]
+      · simp only [ofTid, List.filter_cons, ht, decide_false, Bool.false_eq_true, if_false] at ih ⊢
+        exact ih
+
+theorem flushOld_none {t : Int} {l : List (Int × Nat)} (h : flushOld t l = none) : ofTid t l = [] := by
+  induction l with
+  | nil => rfl
+  | cons e l ih =>
+    unfold flushOld at h
+    by_cases he : e.1 = t
+    · simp [he] at h
+    · simp only [he, if_false] at h
+      cases hf : flushOld t l with
+      | none =>
+        have := ih hf
+        simp only [ofTid, List.filter_cons, he, decide_false, Bool.false_eq_true, if_false] at this ⊢
+        exact this
+      | some x => simp [hf] at h
+
+theorem flushOld_some {t : Int} {l l' : List (Int × Nat)} {e : Int × Nat} (h : flushOld t l = some (e, l')) :
+    e.1 = t ∧ ofTid t l = e :: ofTid t l' ∧ ∀ u, u ≠ t → ofTid u l' = ofTid u l := by
+  induction l generalizing l' with
+  | nil => simp [flushOld] at h
+  | cons x l ih =>
+    unfold flushOld at h
+    by_cases hx : x.1 = t
+    · simp only [hx, if_true, Option.some.injEq, Prod.mk.injEq] at h
+      obtain ⟨h1, h2⟩ := h
+      subst h1; subst h2
+      refine ⟨hx, by simp [ofTid, hx], ?_⟩
+      intro u hu
+      have : ¬ x.1 = u := by rw [hx]; exact fun e => hu e.symm
+      simp [ofTid, this]
+    · simp only [hx, if_false] at h
+      cases hf : flushOld t l with
+      | none => simp [hf] at h
+      | some y =>
+        obtain ⟨y1, y2⟩ := y
+        simp only [hf, Option.some.injEq, Prod.mk.injEq] at h
+        obtain ⟨h1, h2⟩ := h
+        subst h1; subst h2
+        obtain ⟨i1, i2, i3⟩ := ih hf
+        refine ⟨i1, by simp [ofTid, hx] at i2 ⊢; exact i2, ?_⟩
+        intro u hu
+        have := i3 u hu
+        simp only [ofTid, List.filter_cons] at this ⊢
+        rw [this]
+
+theorem any_known {known : Int → Int → Int → Int → Bool}
+    (hk : ∀ pp pt mp mt, known pp pt mp mt = (pt == mt)) (s : RecState) (pid t : Int) :
+    s.tasks.any (fun pos => known pos.pid pos.tid pid t) = knownTid s t := by
+  simp [knownTid, hk]
+
+/-- one message: what the recorder has queued for `t`, followed by what it still holds announced for `t`, grows
+    exactly by the buffers `t` starts -/
+theorem handle_order {known : Int → Int → Int → Int → Bool}
+    (hk : ∀ pp pt mp mt, known pp pt mp mt = (pt == mt)) (s : RecState) (m : CMsg) (hok : msgOk s m = true) (t : Int) :
+    ofTid t (handle known s m).enq ++ ofTid t (handle known s m).shm =
+      ofTid t s.enq ++ ofTid t s.shm ++ startsOf t [m] := by
+  cases m with
+  | recStart u b =>
+    by_cases hu : u = t
+    · subst hu; simp [handle, startsOf, ofTid_append, ofTid]
+    · simp [handle, startsOf, ofTid_append, ofTid, hu]
+  | recEnd u b =>
+    simp only [handle, startsOf, List.append_nil, ofTid_append]
+    by_cases hu : u = t
+    · subst hu
+      simp only [msgOk, shmOf, beq_iff_eq] at hok
+      have hs : ofTid u s.shm = [(u, b)] := hok
+      rw [ofTid_erase_self, hs]
+      simp [ofTid]
+    · rw [ofTid_erase_other hu]
+      simp [ofTid, hu]
+  | taskStart pid u =>
+    simp only [handle, startsOf, List.append_nil, any_known hk]
+    by_cases hkn : knownTid s u = true
+    · simp only [hkn, if_true]
+      cases hf : flushOld u s.shm with
+      | none => rfl
+      | some x =>
+        obtain ⟨e, l⟩ := x
+        obtain ⟨h1, h2, h3⟩ := flushOld_some hf
+        simp only [ofTid_append]
+        by_cases hu : u = t
+        · subst hu
+          rw [h2]
+          simp [ofTid, h1]
+        · have : ¬ e.1 = t := by rw [h1]; exact hu
+          rw [h3 t (Ne.symm hu)]
+          simp [ofTid, this]
+    · simp [hkn]
+  | forkStart pid => simp [handle, startsOf]
+  | forkEnd pid tid => simp [handle, startsOf]
+  | taskEnd tid => simp [handle, startsOf]
+
+theorem startsOf_cons (t : Int) (m : CMsg) (l : List CMsg) : startsOf t (m :: l) = startsOf t [m] ++ startsOf t l := by
+  cases m <;> simp [startsOf]
+  split <;> simp
+
+theorem fold_order {known : Int → Int → Int → Int → Bool}
+    (hk : ∀ pp pt mp mt, known pp pt mp mt = (pt == mt)) (t : Int) :
+    ∀ (msgs : List CMsg) (s : RecState), valid known s msgs = true →
+      ofTid t (finishRec (msgs.foldl (handle known) s)).enq = ofTid t s.enq ++ ofTid t s.shm ++ startsOf t msgs
+  | [], s, _ => by simp [finishRec, ofTid_append, startsOf]
+  | m :: l, s, hv => by
+    simp only [valid, Bool.and_eq_true] at hv
+    rw [List.foldl_cons, fold_order hk t l _ hv.2, handle_order hk s m hv.1 t, startsOf_cons t m l]
+    simp [List.append_assoc]
+
 end Uft.Crash
